@@ -26,7 +26,7 @@ func init() {
 		Level: "exploration",
 		Rule: "seeds = all generated nestings to depth 1 (quick) / 2 (thorough) with one effectful statement per block plus the hand-written seed corpus (handlers, variadics, typed functions); " +
 			"mutation operators, one per static rule of the statement, applied AT EVERY POSITION where they apply: R1 undeclared variable, R2 unused variable, R3 redeclaration in the same " +
-			"scope, R4 type mismatch, R5 wrong argument count, R6 missing return, R7 unreachable code, R8 break outside a loop, R12 two parameters with one name, R13 a variable of one if-branch used in the next branch, R9 value returned from handler/procedure (and return at top " +
+			"scope, R4 type mismatch, R5 wrong argument count, R6 missing return, R7 unreachable code, R8 break outside a loop, R12 two parameters with one name, R13 a variable of one if-branch used in the next branch, R14 a call without a value (cls) in every expression slot and as both operands of every operator, R9 value returned from handler/procedure (and return at top " +
 			"level), R10 unknown function, R11 stray text after a statement / after end / else / headers. A mutant is judged only if the reference static checker (docs/spec.md rules) rejects " +
 			"it (R11: invalid by the grammar). Oracle: Parse returns located errors (C03 position oracle), Evaluator.Run returns them with an empty effect trace, and the evy run binary prints " +
 			"nothing on stdout, something on stderr and exits non-zero. Non-trivial = every judged mutant.",
@@ -40,7 +40,7 @@ func init() {
 		},
 		DeadlineQuick: 5 * time.Minute, DeadlineThorough: 25 * time.Minute,
 		Vacuity: func(m *fw.Result) string {
-			for _, r := range []string{"R1", "R2", "R3", "R4", "R5", "R6", "R7", "R8", "R9", "R10", "R11", "R12", "R13"} {
+			for _, r := range []string{"R1", "R2", "R3", "R4", "R5", "R6", "R7", "R8", "R9", "R10", "R11", "R12", "R13", "R14"} {
 				if m.Counters["judged:"+r] == 0 {
 					return "rule produced no judged mutant: " + r
 				}
@@ -111,6 +111,20 @@ func c05Mutants(prog *pt.Prog, rule string) []*pt.Prog {
 			if usedAny {
 				m = &pt.Prog{Stmts: append([]pt.Stmt{pt.TypedDecl{Name: "zzany", T: pt.TAny}, pt.Assign{Target: pt.V("zzany"), X: pt.B(true)}}, m.Stmts...)}
 			}
+		case "R14": // a call without a value where a value is required: in each expression slot, and as BOTH operands of each operator
+			none := pt.Group{X: pt.Call{Name: "cls"}}
+			m = pt.MapExprs(prog, func(e pt.Expr, slot string) pt.Expr {
+				if slot == "target" || slot == "callstmt" {
+					return e
+				}
+				if b, ok := e.(pt.Binary); ok && site() {
+					return pt.Binary{Op: b.Op, L: none, R: none}
+				}
+				if site() {
+					return none
+				}
+				return e
+			})
 		case "R5": // wrong argument count: drop the last / add one argument at each call
 			m = pt.MapExprs(prog, func(e pt.Expr, slot string) pt.Expr {
 				c, ok := e.(pt.Call)
@@ -339,7 +353,7 @@ func runC05(w *fw.Worker) {
 		if ref.Check(prog) != nil {
 			return // not a valid seed
 		}
-		for _, rule := range []string{"R1", "R2", "R3", "R4", "R5", "R6", "R7", "R8", "R9", "R10", "R12", "R13"} {
+		for _, rule := range []string{"R1", "R2", "R3", "R4", "R5", "R6", "R7", "R8", "R9", "R10", "R12", "R13", "R14"} {
 			for _, m := range c05Mutants(prog, rule) {
 				err := ref.Check(m)
 				if _, reject := err.(*ref.TypeErr); !reject {
